@@ -29,22 +29,14 @@ def jobs_for(tier, rng):
 
 
 def model_checks(rep, module, cfgs):
-    with cf.ThreadPoolExecutor(max_workers=len(cfgs)) as ex:
-        futs = [ex.submit(tlc.run, module, f"{module}_{c}.cfg", workers=max(2, common.NCPU // len(cfgs)))
-                for c in cfgs]
-        for f in futs:
-            res = f.result()
-            tlc.need_ok(res)
-            rep.add_tlc(res)
-            if res.violated:
-                rep.violation("model:" + res.violated, {"tlc": res.trace[:6000], "cfg": res.label})
+    from . import _common
+    _common.model_checks(rep, [(module, f"{module}_{c}.cfg") for c in cfgs])
 
 
 def run_pipeline_traces(rep, tier, enforced, seedmix):
     rng = random.Random(common.seed() * 15485863 + seedmix)
     jobs = jobs_for(tier, rng)
-    with mp.get_context("fork").Pool(common.NCPU) as pool:
-        traces = pool.map(drv_stacking.pipeline, jobs, chunksize=8)
+    traces = common.pmap_chunked(drv_stacking.pipeline, jobs, chunk=8)
     accepted, failures, results = tracecheck.validate("TraceStacking", traces, enforced)
     for r in results:
         rep.add_tlc(r)
